@@ -46,9 +46,13 @@
   * `C09_x86_monitor_boundary_all`  the monitor itself at a state in relation `Ref.K.Rel3` (hooks on): it finds
                                  the `#ctx` hook of the boundary at the program counter and passes.
   WHAT REMAINS of `C09_x86_monitor_statement` (Props/C09X86.lean), now for ALL programs: gap (1) [closures] is
-  CLOSED here; (2) closed before; (3) the monitor's window (a fact about the write history); (4b) the states
-  strictly between two boundaries are not at a `#ctx` comment; and the hypotheses `LabelSafe`, `C06_x86Checks`,
-  the sane machine configurations and the room hypothesis.
+  CLOSED here; (2) closed before; (4b) [the states strictly between two boundaries are not at a `#ctx` comment] is
+  CLOSED in Props/C09X86Mon.lean (`C09_x86_monitor_never_fires`: the run with the heap monitor on never ends in a
+  report `inv:`), which lists what is left: (3) the monitor's window (a fact about the write history), (4c) the
+  hook at the program counter parses to the kinds of the positional state (the hypothesis `hparse` of
+  `C09_x86_monitor_boundary_all` below, for EVERY context whose hook is in the routine, is satisfiable only for
+  routines whose hooks list at most one variable — see Props/C09X86Mon.lean), and the hypotheses `LabelSafe`,
+  `C06_x86Checks`, the sane machine configurations and the room hypothesis.
 -/
 import Scc.Props.C13X86All
 import Scc.Props.C09X86
